@@ -673,6 +673,14 @@ _e("cycle.default.list_later_item", "cycle.default", _field("In", "c", arg("[In]
 _e("cycle.default.object_for_list", "cycle.default", _field("In", "c", arg("[In]", "{}")))
 _e("cycle.default.via_other_field", "cycle.default",
    _seq(_field("In", "c", arg("In", "{c: null, w: {k: 1}}")), _field("Other", "c", arg("In", "{}"))))
+_e("cycle.default.list_inside_object", "cycle.default",
+   _seq(_field("In", "l", arg("[In]")), _field("In", "c", arg("In", "{c: null, l: [{}]}"))))
+_e("cycle.default.list_inside_object_deeper", "cycle.default",
+   _seq(_field("In", "l", arg("[In]")), _field("In", "c", arg("In", "{c: null, l: [null, {c: null, l: {l: []}}]}"))))
+_e("cycle.default.list_of_lists_inside_object", "cycle.default",
+   _seq(_field("In", "l", arg("[[In]]")), _field("In", "c", arg("In", "{c: null, l: [[], [{c: null}, {}]]}"))))
+_e("cycle.default.list_inside_object_null_breaks", None,
+   _seq(_field("In", "l", arg("[In]")), _field("In", "c", arg("In", "{c: null, l: [{c: null}, null]}"))))
 _e("cycle.default.null_breaks", None, _field("In", "c", arg("In", "{c: null}")))
 _e("cycle.default.nested_null_breaks", None, _field("In", "c", arg("In", "{c: {c: null}}")))
 _e("cycle.default.empty_list", None, _field("In", "c", arg("[In!]", "[]")))
